@@ -181,3 +181,63 @@ impl Hash for D {
 #[derive(Debug, Clone, PartialEq, Eq, Hash, salsa::SalsaValue)]
 #[cfg_attr(feature = "persist", derive(serde::Serialize, serde::Deserialize))]
 pub struct DH(pub u8);
+
+/// C23: references returned by tracked functions and field getters are retained (as raw
+/// pointers) until the database is next borrowed mutably and then re-read: each must still hold
+/// the value it had when it was returned.
+pub mod retain {
+    use super::V;
+    use std::cell::{Cell, RefCell};
+
+    thread_local! {
+        static ON: Cell<bool> = const { Cell::new(false) };
+        static R: RefCell<Vec<(*const V, u8)>> = const { RefCell::new(Vec::new()) };
+        static TOTAL: Cell<u64> = const { Cell::new(0) };
+    }
+
+    pub fn enable(on: bool) {
+        ON.with(|c| c.set(on));
+        R.with(|r| r.borrow_mut().clear());
+    }
+
+    #[inline]
+    pub fn note(v: &V) {
+        if ON.with(|c| c.get()) {
+            R.with(|r| {
+                let mut r = r.borrow_mut();
+                // bounded: cycles re-read the same few memos many times
+                if r.len() < 4096 {
+                    r.push((v as *const V, v.x));
+                }
+            });
+        }
+    }
+
+    /// Re-read every retained reference; clears the list. Returns the number re-read.
+    pub fn revalidate() -> Result<usize, String> {
+        let list: Vec<(*const V, u8)> = R.with(|r| std::mem::take(&mut *r.borrow_mut()));
+        let n = list.len();
+        TOTAL.with(|c| c.set(c.get() + n as u64));
+        for (p, x) in list {
+            // SAFETY (intended): the reference was returned with the lifetime of a shared borrow
+            // of the database and no mutable borrow happened since. The inline byte is read first;
+            // the heap block only if the pointer does not look like allocator poison.
+            let now = unsafe { std::ptr::addr_of!((*p).x).read_volatile() };
+            if now != x {
+                return Err(format!("a reference returned with value {x} now reads {now:#x} (storage at {p:?} was freed or overwritten before the next mutable borrow of the database)"));
+            }
+            let hp = unsafe { (std::ptr::addr_of!((*p).heap) as *const usize).read_volatile() };
+            if hp == 0 || hp == usize::from_ne_bytes([0xDD; 8]) || hp == usize::from_ne_bytes([0xCD; 8]) {
+                return Err(format!("a reference returned with value {x}: its heap pointer now reads {hp:#x}"));
+            }
+            if !unsafe { (*p).intact() } {
+                return Err(format!("a reference returned with value {x}: its heap block no longer holds the pattern written at construction"));
+            }
+        }
+        Ok(n)
+    }
+
+    pub fn total_revalidated() -> u64 {
+        TOTAL.with(|c| c.get())
+    }
+}
